@@ -6,15 +6,15 @@ CHECKS = {
  "C01": ("model_checking", "6 C01", "exhaustive enumeration of (built-in type expression, small-scope value) pairs, each executed on the real library and compared with the independent format model",
          "No (type expression of depth <= 3 over all built-in constructors, value of its boundary-value domain) fails to round trip bit-exactly through serialize_to_byte_vec / serialize_to_bytes / deserialize, and the model decodes the same bytes to the same value. Coverage statement within the bounds, not a proof for unbounded nesting."),
  "C02": ("translation_validation", "6 C02", "translation validation of the derive macro: every generated declaration x every small-scope value, derived impl vs the declaration interpreted by the independent model vs a field-by-field driver over the real Adt* API",
-         "For every declaration of the generated grammar (891 quick / 2793 thorough programs) and every value: derived bytes == model bytes == driver bytes; decode of the own encoding and of every alternative form agrees three ways; truncations and single-byte rewrites are judged alike by the derived impl and the driver."),
+         "For every declaration of the generated grammar (1 174 quick / 3 763 thorough programs) and every value: derived bytes == model bytes == driver bytes; decode of the own encoding and of every alternative form agrees three ways; truncations and single-byte rewrites are judged alike by the derived impl and the driver."),
  "C03": ("model_checking", "6 C03", "exhaustive enumeration of legal evolution histories x (writer, reader) pairs x values x placements on the real record machinery, against a semantic outcome oracle and the model's byte-level reader",
          "Every legal history up to the depth bound, every version pair along it, every small-scope value, at top level and embedded (v0 outer, evolved outer, Vec): the reader's result equals expected(H,w,r,v) (value or the specific error naming the field) and sibling data is intact. Derived types to depth 2/3, dynamic driver over the real AdtSerializer/AdtDeserializer to depth 3/4."),
  "C04": ("model_checking", "6 C04", "byte-for-byte comparison of every encoding of the universe with an independent reference encoder anchored to the Scala golden file; decode of every alternative legal form",
          "For every (type, value) of the universes the library's bytes equal the reference encoder's, and every assignment of alternative legal forms (unknown-size sequences, re-plain dedup strings) decodes to the denoted value. The model itself reproduces the 242 540 Scala golden bytes exactly (refmodel/tests/golden.rs)."),
  "C05": ("model_checking", "6 C05", "exhaustive enumeration of short byte strings over a format alphabet and over all byte values, and of all 1-point (thorough: 2-point) tamperings / framing rewrites / splices of valid encodings, per target type and build profile, under panic, watchdog and allocation monitors",
-         "For every table row (941 type expressions + 891 declarations quick) every byte string over the 12-byte alphabet up to length 4/5 (5/7 for the deep set), every byte string over all 256 values up to length 2 (3), and every tampering of every valid encoding decodes to Ok or Err - no unwind, no abort (child process), no hang (watchdog), no single allocation request above max(64 KiB, 16 x input length) - in an overflow-checked and in a plain release build. Containers of zero-width elements are the recorded known finding."),
+         "For every table row (952 type expressions + 1 174 declarations quick) every byte string over the 12-byte alphabet up to length 4/5 (5/7 for the deep set), every byte string over all 256 values up to length 2 (3), every operation sequence on the three low-level readers, and every tampering of every valid encoding decodes to Ok or Err - no unwind, no abort (child process), no hang (watchdog), no single allocation request above max(64 KiB, 16 x input length) - in an overflow-checked and in a plain release build. Containers of zero-width elements are the recorded known finding."),
  "C06": ("model_checking", "6 C06", "same executions as C05; whenever the library accepts an input the strict reference decoder (leniencies of DESIGN 4.5 only) must assign it the same value",
-         "Sandwich of the accepted language: every input of the C05 sweeps that the library decodes to Ok(v) is decoded to the same v by the strict reference decoder (37 M accepted inputs in the quick tier); together with C04-backward this bounds the decoder from both sides."),
+         "Sandwich of the accepted language: every input of the C05 sweeps that the library decodes to Ok(v) is decoded to the same v by the strict reference decoder (about 50 M accepted inputs in the quick tier, 7.9 G in the thorough tier); together with C04-backward this bounds the decoder from both sides."),
  "C07": ("model_checking", "6 C07", "exhaustive enumeration of (type, value, suffix) and (history, w, r, value, suffix): decode from a DeserializationContext, then observe the unread bytes",
          "For every value of the universes and 8 suffixes, decoding consumes exactly the encoding; for evolved records under every writer/reader pair with stored version >= 1 (and version 0 without removals)."),
  "C08": ("fault_enumeration", "6 C08", "enumeration of every cut point of every encoding of the universes (crash-point enumeration of a torn write)",
@@ -22,7 +22,7 @@ CHECKS = {
  "C09": ("model_checking", "6 C09", "exhaustive enumeration of scripts of deduplicated / plain string writes x seven placements, executed on the real library and compared with the model and with the statement's own id arithmetic",
          "All scripts up to length 5 (6) over 8 operations in 7 placements: decoded strings equal the written ones, ids follow first occurrence in stream-processing order (header names first), streams without repeats are byte-identical to the plain stream, unknown ids are Err."),
  "C10": ("model_checking", "6 C10", "exhaustive enumeration of rooted digraphs (<= 3 / 4 nodes, out-degree <= 2) through a safe harness codec on the public reference-tracking API, against a reference pre-order numbering and an isomorphism check with pointer equality",
-         "All 2 249 (quick) / 196 730 (thorough) graphs: stream equals the reference stream, decoded graph is isomorphic with shared nodes shared and distinct nodes distinct, encoding terminates on every cyclic graph, every reference id beyond the objects introduced so far is Err."),
+         "All 2 249 (quick) / 196 730 (thorough) graphs, plus graphs with two tracked object types at one address and chains of up to 600 nodes: stream equals the reference stream, decoded graph is isomorphic with shared nodes shared and distinct nodes distinct, encoding terminates on every cyclic graph, every reference id beyond the objects introduced so far is Err."),
  "C11": ("model_checking", "6 C11", "exhaustive enumeration of all 2^32 unsigned and all 2^32 signed values against a reference formula (no bound)",
          "Quick: all 2^33 values through Vec<u8> -> SliceInput plus a structured boundary subset through the other 16 combinations; thorough: all 2^33 values through all 18 (signedness, sink, source) combinations. Exhaustive outright in the thorough tier."),
  "C12": ("model_checking", "6 C12", "exhaustive enumeration of element lists x source containers x target containers x size forms, decode followed by a sentinel",
@@ -36,9 +36,9 @@ CHECKS = {
  "C17": ("model_checking", "6 C17", "exhaustive enumeration of all Unicode scalar values, boundary lengths on zero-width containers and exact-size iterators, metadata naming unknown fields, and every value of the universe",
          "Every encode returns Ok or the documented Err variant (UnsupportedCharacter with the character, LengthTooLarge at and above 2^31, SerializingTransientConstructor, UnknownFieldReferenceInEvolutionStep); no unwind anywhere in the enumerated space."),
  "C15": ("model_checking", "6 C15", "exhaustive enumeration of (type, value) x six sinks on the same instance; op-sequence exploration on the three sources",
-         "Bytes through Vec, BytesMut, serialize_to_bytes, serialize_to_byte_vec and a recording user output are identical and SizeCalculator equals their length, for every value of the universes."),
+         "Bytes through Vec, BytesMut, serialize_to_bytes, serialize_to_byte_vec and a recording user output are identical and SizeCalculator equals their length, for every value of the universes; the three BinaryInput implementations agree step by step on every operation sequence of depth <= 3 (4) over 22 operations with boundary and extreme counts on every short input."),
  "C18": ("model_checking", "6 C18", "stateless exploration of all interleavings (shuttle DFS scheduler, no preemption bound) of small thread bodies on the real code with scheduler-visible metadata statics and hook points; every call sequence up to a depth in fresh processes",
-         "No interleaving of 2 (thorough: 3) threads doing first-use / steady-state encode and decode, under three hook granularities, and no sequence of up to 3 (4) prior calls changes what a call returns: each result equals the result of the call alone and the reference model's bytes. 2.5 M schedules in the quick tier, none capped."),
+         "No interleaving of 2 (thorough: 3) threads doing first-use / steady-state encode and decode, under three hook granularities, and no sequence of up to 3 (4) prior calls (11 calls, one failing half-way, one filling the reference table) changes what a call returns: each result equals the result of the call alone and the reference model's bytes. 2.7 M schedules in the quick tier, none capped. A supplementary part samples free-running OS threads and is labelled as sampling in the evidence; it carries no claim."),
  "C19": ("exploration", "6 C19", "enumeration of all client programs of a grammar over the object-table API under #![forbid(unsafe_code)] (compiler verdict, then Miri on every accepted program); every short input through the unsafe decode paths natively and under Miri",
          "Every program of the grammar that the compiler accepts is executed under Miri: accepted => no undefined behaviour (the programs that are accepted and UB are the recorded known finding about State::store_ref). 3 367 (quick) inputs through 12 array / byte-vector decode paths and a reference-lookup codec run under Miri without UB and with output identical to the native run."),
 }
